@@ -6,7 +6,7 @@
 (*                                                                         *)
 (* Reported values are "value records" [k, v]:                             *)
 (*   k = "rat"   v = <<n, d>>   a finite exact value                       *)
-(*   k = "milli" v = integer     floor(1000 * x), for ASSD-valued entries  *)
+(*   k = "milli" v = <<x, 1000>>  x = floor(1000 * value), ASSD-valued     *)
 (*   k \in {"inf","ninf","nan","none","absent","irr","skip"}  v = <<0,1>>   *)
 (***************************************************************************)
 EXTENDS Integers, Sequences
@@ -23,6 +23,11 @@ EdgeValue(e) ==
       [] e = "ZERO" -> RatV(<<0, 1>>)
       [] e = "ONE"  -> RatV(<<1, 1>>)
       [] e = "NONE" -> Tok("none")
+
+\* representation-agnostic equality of two value records (a finite value may be reported in
+\* milli units or as a rational)
+FiniteV(x) == x.k \in {"rat", "milli"}
+SameValue(x, y) == IF FiniteV(x) /\ FiniteV(y) THEN x.v[1] * y.v[2] = y.v[1] * x.v[2] ELSE x.k = y.k
 
 \* which scenario a zero-tp result is in, from the instance counts
 Scenario(nPred, nRef) ==
